@@ -29,6 +29,7 @@ pub fn exec_case(slice: &str, lines: &[String]) -> Vec<String> {
         "staking" | "staking-det" => staking::exec_staking(lines),
         "wasm-legacy" => wasm::exec_wasm_legacy(lines),
         "wasm-bech" | "wasm-bech-codes" => wasm::exec_wasm_bech(lines),
+        "wasm-bech-mix" => wasm::exec_wasm_bech_mix(lines),
         s if s.starts_with("wasm") => wasm::exec_wasm(lines),
         _ => panic!("unknown slice {}", slice),
     });
@@ -64,6 +65,11 @@ pub fn gen_case(slice: &str, rng: &mut Rng, thorough: bool, index: u64) -> Vec<S
         "wasm-stk" => wasm_gen2::gen_stk(rng, thorough),
         "wasm-bech" => wasm::rebind_bech(wasm_gen::gen_wasm(rng, thorough)),
         "wasm-bech-codes" => wasm::rebind_bech(wasm_gen2::gen_codes(rng, thorough)),
+        "wasm-bech-mix" => {
+            let mut ops = wasm::rebind_bechm(if rng.chance(1, 3) { wasm_gen2::gen_codes(rng, thorough) } else { wasm_gen::gen_wasm(rng, thorough) });
+            ops.push("nondet".into());
+            ops
+        }
         _ => panic!("unknown slice {}", slice),
     }
 }
